@@ -70,6 +70,28 @@ PROPS = {
     ),
 }
 
+PROPS["C19"] = dict(
+    pkg="c19", level="exploration", exhaustive_claim=False,
+    packages={"c19h": dict(optional=True, hooks={"jschemainternal.go": "notations/jschema/verifhook/hook.go",
+                                                 "constraintsmap.go": "notations/jschema/verifhook/constraints.go"})},
+    technique="model-based stateful testing against a reference insertion-ordered map (slice of pairs): bounded-exhaustive operation sequences, rapid random sequences, concurrent stress under the race detector",
+    level_text=("All operation sequences up to length 4 (quick) / 6 (thorough) over a 16-op vocabulary are enumerated completely on the two public maps and (via an overlay hook) "
+                "the internal constraint map, with the full observable state compared against a reference model after every prefix; random sequences up to 200 ops; "
+                "concurrent plans under -race. Exhaustive for the bounded vocabulary, sampled beyond."),
+    level_note="trusted: the 60-line reference model (omap.Model); the race detector for the concurrency clause (explores only schedules that happen)",
+    rule=("histories: every sequence of 1..4/6 ops from {Set(3 keys x 2 values), Update x3, Delete x3, Filter x2 predicates, Map x2 functions (one failing)}; after each prefix: Len, Has/Get/GetValue for "
+          "all keys and an absent key, Each/EachSafe traces, Each early stop, Find x2, MarshalJSON, and the callback call-log of Filter/Map/Update; random sequences <=200 ops over 8 keys; "
+          "concurrent: 2-8 goroutines x <=30 ops under -race. non-trivial = contains a Delete of an absent key, a Filter rejecting a non-last entry, or a Set after a Delete of the same key "
+          "(classified for all sequences of length<=4 and every 16th longer one); distinct by (map type, sequence)"),
+    assumptions=["reference model is right", "callbacks never re-enter the map (the API holds its lock during callbacks)"],
+    jobs=[
+        job("exhaustive", "^TestExhaustive$", (4, 16), (1, 1), (600, 3000)),
+        job("random", "^TestRandomSequences$", (1, 8), (4000, 40000), (600, 3000)),
+        job("exhaustive-constraints", "^TestExhaustiveConstraints$", (2, 16), (1, 1), (600, 3000), pkg="c19h"),
+        job("random-constraints", "^TestRandomConstraints$", (1, 4), (3000, 30000), (600, 3000), pkg="c19h"),
+        job("concurrent", "^TestConcurrent$", (1, 8), (300, 3000), (600, 3000), race=True),
+    ],
+)
 
 _UNBUILT = "check under construction in this session (see DESIGN.md section 5 for the planned design)"
 NOT_APPLICABLE = [dict(property_id="C%02d" % i, reason=_UNBUILT) for i in range(1, 20) if "C%02d" % i not in PROPS]
